@@ -81,3 +81,13 @@ pub proof fn lemma_pow_step_r(a: Scalar, n: nat, cur: Scalar)
     ax_pow_succ(a, n);
 }
 pub proof fn lemma_pow_zero(a: Scalar) ensures s_pow(a, 0) == Scalar::ONE { ax_pow_zero(a); }
+pub broadcast axiom fn ax_no_zero_div(a: Scalar, b: Scalar) requires #[trigger] s_mul(a, b) == Scalar::ZERO ensures a == Scalar::ZERO || b == Scalar::ZERO;
+pub axiom fn ax_one_ne_zero() ensures Scalar::ONE != Scalar::ZERO;
+pub proof fn lemma_pow_nonzero(a: Scalar, n: nat)
+    requires a != Scalar::ZERO
+    ensures s_pow(a, n) != Scalar::ZERO
+    decreases n
+{
+    if n == 0 { ax_pow_zero(a); ax_one_ne_zero(); }
+    else { lemma_pow_nonzero(a, (n - 1) as nat); ax_pow_succ(a, (n - 1) as nat); if s_pow(a, n) == Scalar::ZERO { ax_no_zero_div(a, s_pow(a, (n - 1) as nat)); } }
+}
